@@ -235,6 +235,9 @@ def run(ctx, rep):
     rule_types(ctx, rep)
     rule_pipeline(ctx, rep)
     rule_stable(ctx, rep)
+    # which of two same-named declarations survives must not depend on the order of the files: a duplicate is always an error
+    from rules.c03 import rule_dupreport
+    rule_dupreport(ctx, rep, rid="R-C06-dupreport")
     # the sort only removes the dependence on the order of declarations if every reference is an edge
     from rules.c07 import rule_decl_edges
     rule_decl_edges(ctx, rep, rid="R-C06-decledges", order_only=True)
